@@ -150,7 +150,7 @@ package atree
 //@      wlen == old(wlen) + p && (forall k :: 0 <= k && k < p ==> wlogID[old(wlen) + k] == keys[k]) &&
 //@      (forall k :: 0 <= k && k < old(wlen) ==> wlogID[k] == old(wlogID[k]))
 
-//@ func (s *PersistentSlabStorage) commit(keys) (err)  serves C03 C04 C14 C15
+//@ func (s *PersistentSlabStorage) commit(keys) (err)  serves C03 C04 C09 C14 C15
 //@   requires invCoh(s) && s.baseStorage != nil && distinctKeys(keys)
 //@   requires forall k :: 0 <= k && k < len(keys) ==> has(s.deltas, keys[k])
 //@   ensures[C14] forall j SlabID :: view(s, j) == old(view(s, j))
@@ -195,8 +195,9 @@ package atree
 //@   loop 1: invariant sameLedger() && s.deltas == old(s.deltas) && s.cache == old(s.cache)
 //@   modifies s.cache, s.deltas, ghost.ledgerHas, ghost.ledgerVal, ghost.wlen, ghost.wlogID, ghost.wlogOp, alloc
 
-//@ func (s *PersistentSlabStorage) FastCommit(numWorkers) (err)  serves C03 C04 C14 C15
+//@ func (s *PersistentSlabStorage) FastCommit(numWorkers) (err)  serves C03 C04 C09 C14 C15
 //@   option start-at-loop 4
+//@   option cut-defers 1
 //@   assume invCoh(s) && s.baseStorage != nil && ownedKeysOf(s, keysWithOwners) &&
 //@        (forall k :: 0 <= k && k < len(keysWithOwners) ==> has(encSlabByID, keysWithOwners[k]) &&
 //@           ite(s.deltas[keysWithOwners[k]] == nil, encSlabByID[keysWithOwners[k]] == nil,
@@ -286,8 +287,9 @@ package atree
 
 //@ # second view of NondeterministicFastCommit: the apply phase (deletion loop = loop 4, result loop = loop 5).
 //@ # The encoder goroutines are cut; each value received from the result channel is unconstrained except for the recv clause (A7).
-//@ func (s *PersistentSlabStorage) NondeterministicFastCommit@apply(numWorkers) (err)  serves C03 C14 C15
+//@ func (s *PersistentSlabStorage) NondeterministicFastCommit@apply(numWorkers) (err)  serves C03 C09 C14 C15
 //@   option start-at-loop 4
+//@   option cut-defers 1
 //@   option recv-havoc true
 //@   assume invCoh(s) && s.baseStorage != nil && distinctKeys(deletedSlabIDs) &&
 //@        (forall k :: 0 <= k && k < len(deletedSlabIDs) ==> has(s.deltas, deletedSlabIDs[k]) && s.deltas[deletedSlabIDs[k]] == nil && deletedSlabIDs[k].address != AddressUndefined)
@@ -309,3 +311,11 @@ package atree
 //@   assume modifiedSlabCount >= 2 because "A7 cut: proved at the cut by the first view (atcut1)"
 //@   loop 5: invariant 0 <= i && i <= modifiedSlabCount && len(s.deltas) == old(len(s.deltas)) - len(deletedSlabIDs) - i
 //@   exit[C15] err == nil ==> len(s.deltas) == old(len(s.deltas)) - len(deletedSlabIDs) - modifiedSlabCount
+
+//@ # ---- census (C04): the only functions of the package that iterate over a Go map. Each is under a contract whose post-condition is
+//@ # independent of the iteration order, or is an enumeration helper whose result order is documented as unspecified and which writes no
+//@ # register (SlabIterator, SlabIDs, Encode of the in-memory storage), or is the error-path scan of the health check.
+//@ census C04 map-range: Array.incrementIndexFrom, Array.decrementIndexFrom, BasicSlabStorage.SlabIDs, BasicSlabStorage.Encode, BasicSlabStorage.SlabIterator,
+//@      PersistentSlabStorage.SlabIterator, PersistentSlabStorage.sortedOwnedDeltaKeys, PersistentSlabStorage.NondeterministicFastCommit,
+//@      PersistentSlabStorage.DeltasWithoutTempAddresses, PersistentSlabStorage.DeltasSizeWithoutTempAddresses, PersistentSlabStorage.HasUnsavedChanges,
+//@      CheckStorageHealth
